@@ -201,6 +201,46 @@ def rule_header(ctx, f):
     ctx.floor("C10-G1", n, 1, "Storage::empty")
 
 
+def rule_size(ctx, f):
+    ctx.rule("C10-G2", "/Size written by save exceeds every object number save can still allocate: the constant added to the number of known objects is at least "
+             "the number of allocation sites that follow (the xref-stream promise, and the trailer writer if it can create an object)")
+    from tables import transitive_callees
+    from cfg import CFG
+    n = 0
+    for b in f.bodies.values():
+        if not (b["id"].endswith("::save") and (b.get("impl") or {}).get("self", "").startswith("file::Storage<")):
+            continue
+        cfg = CFG(b)
+        # `(*trailer).size = (refs.len() + c) as _`
+        site = None
+        for i, j, st in F.stmts(b):
+            if st[0] == "assign" and len(st[1]) > 1 and st[1][-1][0] == "field" and st[1][-1][2] == "size":
+                site = (i, st)
+        if site is None:
+            continue
+        n += 1
+        fl = Flow(b)
+        c = None
+        src = F.op_place(site[1][2][1]) if site[1][2][0] in ("use",) else (F.op_place(site[1][2][2]) if site[1][2][0] == "cast" else None)
+        for a in fl.origins(src[0]) if src else []:
+            if a[0] == "binop" and a[1].startswith("Add"):
+                c = F.const_int(a[3][3]) if F.const_int(a[3][3]) is not None else F.const_int(a[3][2])
+        after = [(bi, t) for bi, t in F.calls(b) if cfg.dominates(site[0], bi) and bi != site[0] or bi == site[0]]
+        proms = [bi for bi, t in after if last_seg(F.callee_name(t)) == "promise"]
+        writers = 0
+        for bi, t in after:
+            if last_seg(F.callee_name(t)) in ("to_dict", "to_primitive") and t.get("resolved_local") and t.get("resolved") in f.bodies:
+                names = transitive_callees(f, f.bodies[t["resolved"]], depth=4)
+                if any(x.endswith("Updater::create") for x in names):
+                    writers += 1
+        need = len(proms) + writers
+        ctx.check(c is not None and c >= need, "C10-G2", b["id"] + "#size",
+                  "/Size = number of objects + %s, but save allocates up to %d more objects afterwards (%d promise(s), %d writer(s) that may create an object): "
+                  "the highest object number reaches /Size, which makes the file invalid for other readers" % (c, need, len(proms), writers), b["span"],
+                  detail="/Size = refs.len() + %s >= %d" % (c, need))
+    ctx.floor("C10-G2", n, 1, "assignment of trailer.size in Storage::save")
+
+
 def run(ctx):
     f = F.load("default")
     ctx.count("bodies", len(f.bodies))
@@ -208,6 +248,7 @@ def run(ctx):
     rule_xref_writer(ctx, f)
     rule_length(ctx, f)
     rule_header(ctx, f)
+    rule_size(ctx, f)
     adj.rule_framing(ctx, f, "C10")
     c09.rule_units(ctx, f) if False else None
     # written positions (shared with C09): registered under this property's own rule id
